@@ -5,6 +5,8 @@ import WhVerif.Lemmas.C02Example
 import WhVerif.Lemmas.C02PipelineExample
 import WhVerif.Lemmas.C02Raw
 import WhVerif.Lemmas.C02Bam
+import WhVerif.Lemmas.C02Stage
+import WhVerif.Lemmas.C02Align
 /-!
 # C02 — property theorems (composition over the solver model)
 
@@ -271,6 +273,184 @@ example : ∃ I, mkInst [100, 200, 300, 400] (selectReads exCands [0, 2, 3]) 1 [
   | some I =>
     exact ⟨I, rfl, (pipeline_truth_from_raw_reads exCands exTruth exSrcC ((rawErrFreeB_iff _ _ _).mp (by decide)) [0, 2, 3]
       (by decide) [100, 200, 300, 400] [] I h (by decide)).2.2.1⟩
+
+/-! ## Round 10: the seams closed on the model side — real selection model (C07) and allele detection (C06) composed in
+
+`Model/C02Stage.lean` composes `C06.readModel` (alignments → reads), `readset.sort()`, the `len(read) >= 2` filter and
+`C07.sampleStage` (the selection of /repo) on reads that carry their alleles, and hands the kept reads to `C01.mkInst`.
+`Spec/C02Align.lean` says what an error-free alignment of an SNV haplotype is. -/
+section stages
+open WhVerif.C02S WhVerif.C02A WhVerif.C06 WhVerif.C07
+
+/-- **pipeline_truth_with_read_selection** (closes `seam-select` on the model side).  The sample's sorted read set `rs`, its
+    candidates (`len(read) >= 2`) satisfying stage A's contract, and the REAL selection model (`C07.sampleStage` through `stageP`:
+    any cap — also 0 —, any preferred source ids, any tie choices of the queue): the reads handed on are unchanged candidates
+    (`selectReads` of the candidates at strictly increasing, duplicate-free indices), each a read of `rs` with ≥ 2 variants, and
+    the conclusion of `pipeline_truth_from_raw_reads` holds — there is no free selection left. -/
+theorem pipeline_truth_with_read_selection (rs : List ReadOut) (hapAt : Nat → Nat) (srcC : Nat → Bool)
+    (hA : RawErrFree ((candidatesP rs).map toRaw) hapAt srcC)
+    (cap : Nat) (prefIds choices : List Nat) (o : StageOut) (hB : stageP rs cap prefIds choices = .ok o)
+    (positions recomb : List Nat) (I : Inst)
+    (hC : mkInst positions (o.selected.map toRaw) 1 [] (hetGeno positions.length) recomb = some I)
+    (hpos : ∀ p ∈ positions, hapAt p ≤ 1) :
+    (∃ so, sampleStage (rs.map toSRead) cap prefIds choices = .ok so ∧ o.selIdx = so.selIdx ∧
+      so.cands = o.cands.map toSRead ∧ so.selected = o.selected.map toSRead) ∧
+    o.cands = candidatesP rs ∧ o.selIdx.Nodup ∧ o.selIdx.Pairwise (· ≤ ·) ∧
+    (∀ r ∈ o.selected, r ∈ rs ∧ 2 ≤ r.variants.length) ∧
+    o.selected.map toRaw = selectReads (o.cands.map toRaw) o.selIdx ∧
+    (let hap := fun c => hapAt (positions.getD c 0)
+     let src := fun k => srcC (o.selIdx.getD k 0)
+     ErrFree I hap src ∧ WF I ∧ dpCost I = some 0 ∧
+     ∀ (β : List Bool) (τ : List Nat), totalCost I β τ = dpCost I →
+       ∀ r0 r c, Connected I r0 r → covers I r c → c < I.ncols →
+         getAlleles I c (restrict β (I.activeAt c)) (τ.getD c 0) =
+           some [if β.getD r0 false = src r0 then (hap c, 1 - hap c) else (1 - hap c, hap c)]) := by
+  have sp := stageP_spec hB
+  have hraw : o.selected.map toRaw = selectReads ((candidatesP rs).map toRaw) o.selIdx := by
+    rw [sp.selected]; exact toRaw_select _ _ sp.bound
+  obtain ⟨so, hso, h1, h2, h3⟩ := sp.so
+  refine ⟨⟨so, hso, h1, by rw [sp.cands]; exact h2, h3⟩, sp.cands, sp.nodup, sp.sorted, ?_, by rw [sp.cands]; exact hraw, ?_⟩
+  · intro r hr
+    rw [sp.selected] at hr
+    exact (mem_candidatesP rs r).1 (selected_mem sp.bound r hr)
+  · rw [hraw] at hC
+    exact pipeline_truth_from_raw_reads _ hapAt srcC hA o.selIdx (by simpa using sp.bound) positions recomb I hC hpos
+
+/-- non-vacuity: the four candidates of `exCands` as pipeline reads plus a one-variant read; cap 1 keeps candidates 0 and 3, cap 2 keeps 0, 1, 3 (the column structure changes) -/
+def exReads : List ReadOut :=
+  [⟨"a", 0, 60, 100, "", -1, -1, [(100, 0, 30), (200, 1, 30)]⟩, ⟨"s", 0, 60, 150, "", -1, -1, [(200, 1, 30)]⟩,
+   ⟨"b", 0, 60, 200, "", -1, -1, [(200, 0, 20), (300, 0, 20)]⟩, ⟨"c", 0, 60, 200, "", -1, -1, [(200, 1, 10), (300, 1, 10)]⟩,
+   ⟨"d", 0, 60, 300, "", -1, -1, [(300, 0, 7), (400, 1, 7)]⟩]
+
+example : ((candidatesP exReads).map toRaw).map (·.variants) = exCands.map (·.variants) := by decide
+example : (match stageP exReads 15 [] [] with | .ok o => some (o.selIdx, o.selected.map (·.name)) | .error _ => none)
+    = some ([0, 1, 2, 3], ["a", "b", "c", "d"]) := by decide
+def exStageView (cap : Nat) : Option (List Nat × Bool) :=
+  match stageP exReads cap [] [] with
+  | .ok o => some (o.selIdx, (mkInst [100, 200, 300, 400] (o.selected.map toRaw) 1 [] (hetGeno 4) []).isSome)
+  | .error _ => none
+example : exStageView 1 = some ([0, 3], true) ∧ exStageView 2 = some ([0, 1, 3], true) := by decide
+
+/-- **errfree_alignments_give_rawerrfree** (stage A for SNV inputs, no-reference detector — `_detect_alleles` +
+    `_alignments_to_reads` + `_group_reads`/`create_read_from_group`, as-is or repaired: `cfg` arbitrary).  SNV-only variant list
+    (single different REF/ALT bases, strictly increasing positions), a biallelic truth, and every alignment that passes the
+    filter an error-free alignment (M/=/X blocks carry the haplotype's bases; clips, skips, any other operator allowed) of the
+    haplotype of its template: `ReadSetReader.read` raises nothing that is not raised by the stream itself and every read it
+    returns satisfies stage A's contract `RawErrFree` — and so do the sorted read set and its candidates, whatever the
+    hash order of `ReadSet::sort`. -/
+theorem errfree_alignments_give_rawerrfree (cfg : ReadCfg) (sources : List Source) (sample : Option String) (R : Seq)
+    (vs : List Variant) (hapAt : Nat → Nat) (hsrc : Nat × String → Bool) (hin : SnvInput vs) (h01 : ∀ p, hapAt p ≤ 1)
+    (hal : AlnsErrFree cfg sources sample R vs hapAt hsrc) (reads : List ReadOut)
+    (h : readModel cfg sources sample none vs none = .ok reads) :
+    RawErrFree (reads.map toRaw) hapAt (srcOf hsrc reads) ∧
+    ∀ rank, RawErrFree ((candidatesP (sortReads rank reads)).map toRaw) hapAt (srcOf hsrc (candidatesP (sortReads rank reads))) := by
+  have hall := readModel_errfree cfg sources sample R vs hapAt hsrc hin (fun v _ => h01 v.pos) hal reads h
+  refine ⟨rawErrFree_of_mem hapAt reads (fun r => hsrc (r.sourceId, r.name)) hall, fun rank => ?_⟩
+  apply rawErrFree_of_mem hapAt _ (fun r => hsrc (r.sourceId, r.name))
+  intro r hr
+  exact hall r ((mem_sortReads rank r reads).1 ((mem_candidatesP _ r).1 hr).1)
+
+/-- **pipeline_truth_from_alignments** (alignment-level hypothesis → truth up to one swap per component).  SNV input, biallelic
+    truth, every alignment passing the filter an error-free alignment of its template's haplotype; the composed stage model
+    (`samplePipeline`: C06 reader without reference → `ReadSet::sort` with ANY hash order → `len >= 2` filter → C07 selection with
+    ANY cap / preferred ids / tie choices → `accessible_positions`) returns the solver input `out`; `PedigreeDPTable`'s conversion
+    succeeds on it: the instance is `ErrFree` and `WF`, the solver reports cost 0 and every witness achieving it carries, on every
+    read-connected component, exactly the true alleles up to one swap. -/
+theorem pipeline_truth_from_alignments (cfg : ReadCfg) (sources : List Source) (sample : Option String) (R : Seq)
+    (vs : List Variant) (hapAt : Nat → Nat) (hsrc : Nat × String → Bool) (hin : SnvInput vs) (h01 : ∀ p, hapAt p ≤ 1)
+    (hal : AlnsErrFree cfg sources sample R vs hapAt hsrc)
+    (rank : ReadOut → Nat) (cap : Nat) (prefIds choices : List Nat) (out : PipeOut)
+    (hP : samplePipeline cfg sources sample vs none rank cap prefIds choices = .ok out)
+    (recomb : List Nat) (I : Inst)
+    (hC : mkInst out.positions out.raws 1 [] (hetGeno out.positions.length) recomb = some I) :
+    let hap := fun c => hapAt (out.positions.getD c 0)
+    let src := srcOf hsrc out.stage.selected
+    (∀ r ∈ out.stage.selected, r ∈ out.reads ∧ 2 ≤ r.variants.length) ∧
+    ErrFree I hap src ∧ WF I ∧ dpCost I = some 0 ∧
+    ∀ (β : List Bool) (τ : List Nat), totalCost I β τ = dpCost I →
+      ∀ r0 r c, Connected I r0 r → covers I r c → c < I.ncols →
+        getAlleles I c (restrict β (I.activeAt c)) (τ.getD c 0) =
+          some [if β.getD r0 false = src r0 then (hap c, 1 - hap c) else (1 - hap c, hap c)] := by
+  intro hap src
+  unfold samplePipeline at hP
+  split at hP
+  · cases hP
+  · rename_i rs hrs
+    split at hP
+    · cases hP
+    · rename_i o ho
+      cases hP
+      simp only at hC
+      have hall : ∀ r ∈ rs, RawReadOk hapAt (hsrc (r.sourceId, r.name)) (toRaw r) := by
+        unfold readSorted at hrs
+        split at hrs
+        · cases hrs; intro r hr; cases hr
+        · cases hrs
+        · rename_i reads hreads
+          cases hrs
+          intro r hr
+          exact readModel_errfree cfg sources sample R vs hapAt hsrc hin (fun v _ => h01 v.pos) hal reads hreads r
+            ((mem_sortReads rank r reads).1 hr)
+      have sp := stageP_spec ho
+      have hsel : ∀ r ∈ o.selected, r ∈ rs ∧ 2 ≤ r.variants.length := by
+        intro r hr
+        rw [sp.selected] at hr
+        exact (mem_candidatesP rs r).1 (selected_mem sp.bound r hr)
+      have hraw : RawErrFree (o.selected.map toRaw) hapAt (srcOf hsrc o.selected) :=
+        rawErrFree_of_mem hapAt o.selected (fun r => hsrc (r.sourceId, r.name)) (fun r hr => hall r (hsel r hr).1)
+      have hef : ErrFree I hap src := errfree_of_raw hC (fun p _ => h01 p) hraw
+      have hwf : WF I := mkInst_wf hC
+      exact ⟨hsel, hef, hwf, WhVerif.C02.errfree_dpCost_zero hef hwf,
+        fun β τ hw r0 r c hconn hcov hc => WhVerif.C02.pipeline_truth_solver hef hwf β τ hw r0 r c hconn hcov hc⟩
+
+/-- With a reference (`detect_alleles_by_alignment`, the path the CLI check runs) the per-read statement is NOT proved:
+    full statement = `errfree_alignments_give_rawerrfree` with `reference = some R`.  Proved part: ONE re-alignment call of an
+    error-free read on an SNV under the hypotheses of C06's `realign_snv_mnp_correct` (the M/=/X block around the variant reaches
+    the ±overhang window or the read ends there in clips) returns the carried allele WITH the quality 30 (> 0), i.e. an entry that
+    satisfies `RawReadOk`.  Missing: lifting over `_iterate_cigar`'s yields for all variants of a read (variant at the first base of
+    a block, windows reaching over an N or into the neighbouring SNV) and then the same chain as above. -/
+theorem errfree_alignments_give_rawerrfree_realign_partial (f14 : Bool) (R query : Seq) (pos : Nat) (r a : Char) (h : Nat) (hh : h < 2)
+    (A B : Cigar) (mop m start oh : Nat) (hm : isMatch mop = true) (hoh : 0 < oh) (hne : r ≠ a) (hsym : a ≠ '<')
+    (hR : slice R pos 1 = [r])
+    (hcov : start + refLen A ≤ pos ∧ pos + 1 ≤ start + refLen A + m) (hin : start + refLen A + m ≤ R.length)
+    (hleft : oh ≤ pos - (start + refLen A) ∨ A.all isClip = true)
+    (hright : oh ≤ start + refLen A + m - (pos + 1) ∨ B.all isClip = true)
+    (hq : slice query (qLen A) m = slice (WhVerif.Props.C06.hapSeq R pos 1 (if h = 0 then [r] else [a])) (start + refLen A) m) :
+    realignQ f14 none ⟨pos, [r], [[a]]⟩ none query (A ++ (mop, m) :: B) A.length (pos - (start + refLen A))
+        ((qLen A + (pos - (start + refLen A)) : Nat) : Int) R oh = .ok (some (h, 30)) := by
+  have hcorr := WhVerif.Props.C06.realign_snv_mnp_correct f14 R query pos [r] [a] h hh A B mop m start oh hm hoh rfl (by simp)
+    (by simpa using hne) (by simpa using hsym) hR hcov hin hleft hright hq
+  have key := WhVerif.Props.C06.realignQ_allele f14 none ⟨pos, [r], [[a]]⟩ none query (A ++ (mop, m) :: B) A.length
+    (pos - (start + refLen A)) ((qLen A + (pos - (start + refLen A)) : Nat) : Int) R oh
+  rw [show distOf none = (levFast : Seq → Seq → Nat) from rfl, WhVerif.Props.C06.realign_levFast, hcorr] at key
+  have hq30 : ∀ x, realignQ f14 none ⟨pos, [r], [[a]]⟩ none query (A ++ (mop, m) :: B) A.length (pos - (start + refLen A))
+      ((qLen A + (pos - (start + refLen A)) : Nat) : Int) R oh = .ok (some x) → x.2 = 30 := by
+    intro x hx
+    unfold realignQ at hx
+    split at hx
+    · cases hx
+    · split at hx
+      · cases hx
+      · dsimp only at hx
+        split at hx
+        · cases hx
+        · cases hx
+        · cases hx; rfl
+  cases hres : realignQ f14 none ⟨pos, [r], [[a]]⟩ none query (A ++ (mop, m) :: B) A.length (pos - (start + refLen A))
+      ((qLen A + (pos - (start + refLen A)) : Nat) : Int) R oh with
+  | error e => rw [hres] at key; cases key
+  | ok o =>
+    rw [hres] at key
+    cases o with
+    | none => cases key
+    | some x =>
+      have h2 := hq30 x hres
+      obtain ⟨x1, x2⟩ := x
+      simp only [Except.map, Option.map_some, Except.ok.injEq, Option.some.injEq] at key
+      simp only at h2
+      rw [key, h2]
+
+end stages
 
 /-! ## The premise "the reads given for a sample": which alignments are a sample's reads (round 8)
 
